@@ -164,6 +164,11 @@ func genC18(t *rapid.T, tier string) (*World, any) {
 		p.Accept = true
 		// nested roots and a sibling root
 		putRoot(w, "crs/util/a/nested", "nested")
+		if chance(t, 50, "nested-without-config") {
+			// a root's configuration is its own file or none: never the enclosing root's
+			delete(w.Files, "crs/util/a/nested/regex-assembly/toolchain.yaml")
+			delete(w.Files, "crs/regex-assembly/vendored/regex-assembly/toolchain.yaml")
+		}
 		putRoot(w, "other", "other")
 		// roots whose path merely contains the text "regex-assembly"
 		putRoot(w, "crs/regex-assembly-plugins/inner", "innerplug")
